@@ -2,7 +2,7 @@
 
 Spec: spec/RangeMap.tla (into_rangemap_safe, MemRange constructors, STACK WIN overlap repair; the C08
 predicates as invariants), spec/Trace_RangeMap.tla (the same predicates on observations of the real code,
-exact u64 on limbs).  Bindings: G - every entry sequence TLC enumerates is built into 13 kinds of real tables
+exact u64 on limbs).  Bindings: G - every entry sequence TLC enumerates is built into 15 kinds of real tables
 (trait, module / unloaded-module / memory / memory64 / memory-info / maps lists directly and through generated
 dumps, symbol-file FUNC / line / STACK CFI / STACK WIN tables); equality with the model's table implies the
 predicates (TLC checked them on the model's table); any case that differs is decided by TLC evaluating the
@@ -72,7 +72,7 @@ def run(ctx):
     tr = ctx.harness("record_rangemap", [ntab], out_name="rm_trace.ndjson")
     tvr, vs = verdicts(ctx, tr, "random")
     report(ctx, tr, vs, "V")
-    for b in ("trait", "modules", "unloaded", "memory", "memory64", "meminfo", "maps", "dump_modules", "func", "lines", "cfi", "win_fd", "win_fpo"):
+    for b in ("trait", "modules", "unloaded", "memory", "memory64", "meminfo", "maps", "dump_modules", "func", "lines", "cfi", "win_fd", "win_fpo", "unified_meminfo", "unified_maps"):
         if rep["classes"].get(b, 0) == 0:
             raise core.ToolFailure("vacuous replay: binding %s never exercised" % b)
     cov = {
@@ -84,7 +84,7 @@ def run(ctx):
         "evaluations": rep["evaluations"] + tvr["total"],
         "distinct_nontrivial": rep["distinct_nontrivial"],
         "rule": "every sequence of <= MaxLen (base,size,value) entries over the configured bases (incl. u64::MAX-1, u64::MAX) and sizes, "
-                "built into each of 13 real table kinds and queried at every address of the domain (non-trivial = distinct (binding, "
+                "built into each of 15 real table kinds and queried at every address of the domain (non-trivial = distinct (binding, "
                 "sequence) whose table has >= 2 ranges); plus seeded random u64 tables (0..9 entries, overlapping / nested / duplicate / "
                 "empty / ending at 2^64-1) per binding, probed at and around every boundary, all evaluated by Trace_RangeMap",
         "tlc": {"RangeMap": mc.as_dict(), "Trace_RangeMap(random)": {k: v for k, v in tvr.items() if k != "out"}},
